@@ -32,7 +32,7 @@ type Opts struct {
 }
 
 type Op struct {
-	K   string `json:"k"` // append read setoff flush sync size offset discard switchro close reopen meta
+	K   string `json:"k"` // append read setoff flush sync size offset discard switchro close reopen meta copy
 	Bs  string `json:"bs,omitempty"`
 	N   uint64 `json:"n,omitempty"`
 	Off uint64 `json:"off,omitempty"`
@@ -40,7 +40,7 @@ type Op struct {
 }
 
 type Out struct {
-	K   string `json:"k"` // err ok app full read n bytes any
+	K   string `json:"k"` // err ok app full read n bytes copy any
 	Off uint64 `json:"off,omitempty"`
 	N   uint64 `json:"n,omitempty"`
 	Bs  string `json:"bs,omitempty"`
@@ -62,6 +62,9 @@ type Case struct {
 
 type sut struct {
 	c      *Case
+	dir    string // copies go here
+	ncopy  int
+	note   string // direct observation on a copy (metadata differs, copy cannot be opened)
 	path   string
 	app    appendable.Appendable
 	closed bool // a Close call was made since the last Open
@@ -94,6 +97,36 @@ func (s *sut) open(o Opts) error {
 	}
 	s.closed = false
 	return nil
+}
+
+// readCopy opens a copy read-only and returns everything it holds: Size() bytes read at offset 0
+func (s *sut) readCopy(dst string, wantMeta []byte) []byte {
+	var cp appendable.Appendable
+	var err error
+	if s.c.Kind == "single" {
+		cp, err = singleapp.Open(dst, singleapp.DefaultOptions().WithReadOnly(true).WithWriteBuffer(nil))
+	} else {
+		cp, err = multiapp.Open(dst, multiapp.DefaultOptions().WithReadOnly(true).WithFileSize(s.c.FS).
+			WithFileExt("aof").WithMaxOpenedFiles(1000).WithPrealloc(s.c.Prealloc != 0))
+	}
+	if err != nil {
+		s.note = "the copy cannot be opened: " + err.Error()
+		return nil
+	}
+	defer cp.Close()
+	if hex.EncodeToString(cp.Metadata()) != hex.EncodeToString(wantMeta) {
+		s.note = fmt.Sprintf("the copy's metadata is %x, the original's %x", cp.Metadata(), wantMeta)
+	}
+	sz, err := cp.Size()
+	if err != nil || sz == 0 {
+		return nil
+	}
+	bs := make([]byte, sz)
+	n, err := cp.ReadAt(bs, 0)
+	if err != nil && !errors.Is(err, io.EOF) {
+		return nil
+	}
+	return bs[:n]
 }
 
 func errOut(err error) Out {
@@ -167,6 +200,14 @@ func (s *sut) exec(op Op) (out Out, panicked string) {
 		return Out{K: "ok"}, ""
 	case "meta":
 		return Out{K: "bytes", Bs: hex.EncodeToString(a.Metadata())}, ""
+	case "copy":
+		s.ncopy++
+		dst := filepath.Join(s.dir, fmt.Sprintf("copy%d", s.ncopy))
+		defer os.RemoveAll(dst)
+		if err := a.Copy(dst); err != nil {
+			return Out{K: "err"}, ""
+		}
+		return Out{K: "copy", Bs: hex.EncodeToString(s.readCopy(dst, a.Metadata()))}, ""
 	}
 	return Out{K: "err"}, "unknown op " + op.K
 }
@@ -295,6 +336,15 @@ func (a *spec) step(op Op) Out {
 		return Out{K: "ok"}
 	case "meta":
 		return Out{K: "bytes", Bs: a.meta}
+	case "copy":
+		if a.closed {
+			return Out{K: "err"}
+		}
+		a.fl = sz
+		if a.disc > 0 {
+			return Out{K: "any"}
+		}
+		return Out{K: "copy", Bs: hex.EncodeToString(a.data)}
 	}
 	return Out{K: "err"}
 }
@@ -322,6 +372,12 @@ func shape(op Op, impl, sp Out) string {
 		default:
 			return "read-eof-flag"
 		}
+	}
+	if impl.K == "copy" && sp.K == "copy" {
+		if len(impl.Bs) > len(sp.Bs) && strings.HasPrefix(impl.Bs, sp.Bs) {
+			return "copy-carries-bytes-beyond-size"
+		}
+		return "copy-holds-other-bytes"
 	}
 	if impl.K == "n" && sp.K == "n" {
 		if impl.N > sp.N {
@@ -360,6 +416,8 @@ func opTerm(op Op) string {
 		return "Reopen " + optsTerm(*op.O)
 	case "meta":
 		return "Meta"
+	case "copy":
+		return "Copy"
 	}
 	return "Meta"
 }
@@ -382,6 +440,8 @@ func outTerm(o Out) string {
 		return fmt.Sprintf("ON %d", o.N)
 	case "bytes":
 		return `OBytes (hex "` + o.Bs + `")`
+	case "copy":
+		return `OCopy (hex "` + o.Bs + `")`
 	}
 	return "OErr"
 }
@@ -425,6 +485,9 @@ type played struct {
 	tag, what  string // first departure from the byte-array log ("" = none)
 	at         int
 	nontrivial bool
+	copyTag    string // a Copy that carries stale bytes behind the log (same defect as the reopen size);
+	copyWhat   string // the byte-slice log keeps following the case after it
+	copyAt     int
 }
 
 // play drives one case: ops come either from c.Ops (replay, directed scenarios, shrinking) or from
@@ -438,7 +501,7 @@ func (rn *runner) play(c *Case, next func(s *sut, sp *spec, i int) *Op) (played,
 		return res, err
 	}
 	defer os.RemoveAll(dir)
-	s := &sut{c: c}
+	s := &sut{c: c, dir: dir}
 	if c.Kind == "single" {
 		s.path = filepath.Join(dir, "single.aof")
 	} else {
@@ -524,6 +587,22 @@ func (rn *runner) play(c *Case, next func(s *sut, sp *spec, i int) *Op) (played,
 		case rewound:
 			taint = "rewound"
 		}
+		if s.note != "" {
+			depart(i, "copy", s.note)
+			s.note = ""
+			continue
+		}
+		if out.K == "copy" && want.K == "copy" && out != want && strings.HasPrefix(out.Bs, want.Bs) {
+			if pre > 0 {
+				continue // "unless files are preallocated": the copy also holds the preallocated bytes
+			}
+			if res.copyTag == "" {
+				res.copyTag = fmt.Sprintf("C17/%s/%s/copy-carries-bytes-beyond-size", c.Kind, taint)
+				res.copyWhat = fmt.Sprintf("Copy produced a file holding %s, the byte-array log holds %s", outTerm(out), outTerm(want))
+				res.copyAt = i
+			}
+			continue
+		}
 		if !sameOut(out, want) {
 			depart(i, fmt.Sprintf("%s/%s", taint, shape(*op, out, want)),
 				fmt.Sprintf("%s returned %s, a byte-array log gives %s", opTerm(*op), outTerm(out), outTerm(want)))
@@ -559,6 +638,13 @@ func (rn *runner) session(c *Case, bucket string, next func(s *sut, sp *spec, i 
 	json.Unmarshal(b, &js)
 	js["departure"] = res.tag // first departure from the byte-array log seen in this case ("" = none)
 	rn.r.Case(c.coq(), js, bucket, res.nontrivial)
+	if res.copyTag != "" && !rn.seen[res.copyTag] {
+		rn.seen[res.copyTag] = true
+		small := *c
+		small.Ops, small.Outs = c.Ops[:res.copyAt+1], nil
+		sb, _ := json.Marshal(small)
+		rn.r.Finding(fmt.Sprintf("%s: %s; replay: harness case %s", res.copyTag, res.copyWhat, sb))
+	}
 	if res.tag != "" && !rn.seen[res.tag] {
 		rn.seen[res.tag] = true
 		small, what := rn.shrink(c, res)
@@ -691,7 +777,7 @@ func (g *gen) next(s *sut, sp *spec, i int) *Op {
 		if g.pendingRe > 0 {
 			g.pendingRe--
 			// operations on a closed appendable
-			ks := []string{"size", "offset", "read", "append", "flush", "close", "meta", "setoff", "discard"}
+			ks := []string{"size", "offset", "read", "append", "flush", "close", "meta", "setoff", "discard", "copy"}
 			k := ks[rng.Intn(len(ks))]
 			switch k {
 			case "read":
@@ -738,13 +824,15 @@ func (g *gen) next(s *sut, sp *spec, i int) *Op {
 		}
 		g.lastApp = size
 		return &Op{K: "append", Bs: g.bytes(int(n))}
-	case x < 62: // read
+	case x < 59: // read
 		off := pickU(rng, g.offsets(size))
 		n := pickU(rng, g.lengths(size, off))
 		if rng.Intn(40) == 0 {
 			n = 0
 		}
 		return &Op{K: "read", N: n, Off: off}
+	case x < 62:
+		return &Op{K: "copy"}
 	case x < 72: // setoffset
 		off := pickU(rng, g.offsets(size))
 		if g.inChunk && g.c.FS > 0 {
@@ -779,6 +867,9 @@ func (g *gen) next(s *sut, sp *spec, i int) *Op {
 		}
 		return &Op{K: "discard", Off: off}
 	case x < 93:
+		if rng.Intn(4) > 0 {
+			return &Op{K: "copy"}
+		}
 		return &Op{K: "meta"}
 	case x < 95:
 		return &Op{K: "switchro"}
@@ -850,6 +941,10 @@ func directed() []Case {
 		{Kind: "multi", FS: 4, MaxOpen: 1000, O: nr, Ops: []Op{ap("0123456789"), so(2), sz, rd(8, 0)}},
 		{Kind: "multi", FS: 4, MaxOpen: 1000, O: nr, Ops: []Op{ap("0123456789"), so(2), sz, cl, re(nr), sz}},
 		{Kind: "multi", FS: 4, MaxOpen: 1000, O: nr, Ops: []Op{ap("0123456789"), fl, so(9), ap("x"), rd(2, 8), cl, re(nr), sz}},
+		// Copy moves the OS file position to the physical end of the file: the next flush must seek back
+		{Kind: "single", O: nr, Ops: []Op{ap("aaaaaaaaaaXXXXXXXXXX"), fl, so(10), ap("BBBBB"), {K: "copy"}, ap("CCCCC"), fl, rd(20, 0)}},
+		{Kind: "single", Prealloc: 8, O: nr, Ops: []Op{so(0), ap("abc"), {K: "copy"}, ap("de"), fl, rd(8, 0)}},
+		{Kind: "multi", FS: 4, MaxOpen: 1000, O: nr, Ops: []Op{ap("0123456789"), {K: "copy"}, so(6), ap("x"), {K: "copy"}, rd(7, 0)}},
 		// the stale chunk files are reached by a read that starts beyond, or runs past, the current chunk
 		{Kind: "multi", FS: 4, MaxOpen: 1000, O: nr, Ops: []Op{ap("0123456789"), so(2), rd(2, 4)}},
 		{Kind: "multi", FS: 4, MaxOpen: 1000, O: nr, Ops: []Op{ap("0123456789"), so(2), ap("xy"), rd(8, 0)}},
